@@ -25,6 +25,12 @@ Definition lead (content : str) : nat :=
 Definition trail (content : str) : nat :=
   match osearch reTrail content 0 with Some x => m_end x - m_start x | None => 0 end.
 
+(* content = entry.content
+   if not content.strip(" \t\r\n"): content = ""     (white-space only junk is not trimmed) *)
+Definition ftl_ws : list N := [32; 9; 13; 10]%N.
+Definition all_ws (content : str) : bool := forallb (fun c => existsb (N.eqb c) ftl_ws) content.
+Definition trim_content (content : str) : str := if all_ws content then [] else content.
+
 Definition fluent_entity (e : fentry) : entry :=
   let key := match f_kind e with
              | FTerm => (fst (f_id e) - 1, snd (f_id e))
@@ -44,8 +50,9 @@ Fixpoint walk_fluent_from (only_loc : bool) (last_end : nat) (body : list fentry
       (match f_kind e with
        | FMessage | FTerm => [fluent_entity e]
        | FJunk =>
-           let start := fst (f_span e) + lead (f_content e) in
-           let end_ := snd (f_span e) - trail (f_content e) in
+           let content := trim_content (f_content e) in
+           let start := fst (f_span e) + lead content in
+           let end_ := snd (f_span e) - trail content in
            gap only_loc (fst (f_span e)) start ++ [mk_junk (start, end_)] ++
            gap only_loc end_ (snd (f_span e))
        | FComment => if only_loc then [] else [mk_comment (f_span e)]
